@@ -88,10 +88,11 @@ class C10(Check):
                   "an exception escape (so its I/O loop survives), feeding one connection leaves all others untouched, and every delivered message was decoded from exactly its declared-length window. "
                   "Each run replays the real decoders' observed behaviour through the model on a mutation stream (every length value, type/version bytes, truncations, flips, random) and checks the loops' "
                   "outcome; independently the oracle checks no spin (CPU budget), surviving I/O loop, unchanged sibling traffic and that each delivered object does not depend on bytes outside its window.")
-    level_note = ("Trusted: Lean kernel, standard axioms, hand-written Model/Framing.lean, the harness. The controller's OpenFlow_01_Task loop is emulated by the harness (exception from read() = that "
-                  "connection is closed, as of_01.py:1145-1186 does); the switch side drives the real RecocoIOLoop generator. What the ~50 decoders do with garbage is NOT modelled: it is observed, "
-                  "fed to the model as a table, and checked by the oracle (window independence, exceptions contained).")
-    trusted_base = ["model Model/Framing.lean (ctlLoop/swLoop) hand-written; tied by this correspondence run", "emulation of OpenFlow_01_Task's per-connection exception handling in the harness"]
+    level_note = ("Trusted: Lean kernel, standard axioms, hand-written Model/Framing.lean, the harness. Both I/O loops are the real ones: the controller side drives the real "
+                  "OpenFlow_01_Task.run generator (its listening socket is bound to 127.0.0.1:0 and never connected to), the switch side the real RecocoIOLoop.run generator; the harness "
+                  "answers each Select they yield. What the ~50 decoders do with garbage is NOT modelled: it is observed, fed to the model as a table, and checked by the oracle "
+                  "(window independence, exceptions contained).")
+    trusted_base = ["model Model/Framing.lean (ctlLoop/swLoop) hand-written; tied by this correspondence run", "answering the Select operations that the two real I/O loop generators yield (the harness plays the select hub)"]
     assumptions = ["non-termination is detected by a budget of 4 s CPU time (or 32 s wall time when blocked) per read call", "recv returns at most the bytes asked for"]
     rule = ("case = (side, valid prefix messages, one malformed region, valid suffix messages, two sibling connections with valid traffic, cut positions); malformed region = every length value 0..len+8 of "
             "each of the 22 message types (corpus), type/version bytes, embedded lengths, truncations, byte flips, random bytes; non-trivial = the malformed region differs from a valid message")
@@ -226,46 +227,70 @@ class C10(Check):
         return stream, segment(stream, case["cuts"])
 
     def _impl_ctl(self, case):
+        """three real Connections served by the REAL OpenFlow_01_Task.run loop (a generator: it yields a Select whose
+        first argument is the very list of sockets it serves; we append our connections to it and answer each Select)"""
         of_01 = self.of_01
+        core = poxenv.boot()
         stream, chunks = self._plan(case)
         table, delivered, objs = {}, [], []
         wrap, deliver = self._recorders(table, delivered, objs)
         socks = [RSock() for _ in range(3)]
         cons = [of_01.Connection(s) for s in socks]
-        class Unp(list):                                   # type >= len(unpackers) raises IndexError in the real table too
-            pass
         cons[0].unpackers = [wrap(u) for u in cons[0].unpackers]
         cons[0].handlers = [deliver] * 256
         sib_del = [[], []]
         for k in (1, 2):
             cons[k].handlers = [(lambda c, m, k=k: sib_del[k - 1].append(bytes(m.pack()).hex()))] * 256
-        status = ["alive"] * 3
-        counts, spin = [], False
-        def read(i):
-            if status[i] != "alive": return
+        raised = [False] * 3
+        for i, c in enumerate(cons):                      # remember whether read() returned False or raised
+            def rd(c=c, i=i, real=c.read):
+                try:
+                    return real()
+                except BaseException:
+                    raised[i] = True; raise
+            c.read = rd
+        task = of_01.OpenFlow_01_Task(port=0, address="127.0.0.1")
+        g = task.run()
+        alive, spin = [True], [False]
+        try:
+            sel = next(g)
+            served = sel._args[0]
+            served.extend(cons)
+        except StopIteration:
+            alive[0] = False; served = []
+        def status(i):
+            if cons[i] in served: return "alive"
+            return "dead" if raised[i] else "closed"
+        def feed(i, data):
+            if not alive[0] or cons[i] not in served: return False
+            socks[i].chunks.append(data)
             try:
                 with cpu_budget(4.0):
-                    r = cons[i].read()
+                    g.send(([cons[i]], [], []))
+            except StopIteration:
+                alive[0] = False
             except Spin:
-                status[i] = "spin"; return
-            except Exception as e:                        # OpenFlow_01_Task.run: log, close this connection, carry on
-                status[i] = "dead"; return
-            if r is False: status[i] = "closed"
+                spin[0] = True; alive[0] = False
+            return True
+        counts = []
         sib_msgs = [[bytes.fromhex(x) for x in s] for s in case["sib"]]
         for n, ch in enumerate(chunks):
-            if status[0] == "alive":
-                socks[0].chunks.append(ch); read(0)
-                if status[0] in ("alive",): counts.append(len(delivered))
-                elif status[0] in ("closed", "dead"): counts.append(len(delivered))
-            for k in (1, 2):                               # sibling traffic interleaved with the offender's
-                if n < len(sib_msgs[k - 1]):
-                    socks[k].chunks.append(sib_msgs[k - 1][n]); read(k)
+            if feed(0, ch): counts.append(len(delivered))
+            for k in (1, 2):
+                if n < len(sib_msgs[k - 1]): feed(k, sib_msgs[k - 1][n])
         for k in (1, 2):
-            for m in sib_msgs[k - 1][len(chunks):]:
-                socks[k].chunks.append(m); read(k)
-        if "spin" in status: self.spins += 1
-        return {"delivered": delivered, "counts": counts, "buf": bytes(cons[0].buf).hex() if status[0] == "alive" else None, "status": status[0],
-                "sib_status": status[1:], "sib_delivered": sib_del, "loop_alive": True, "table": list(table.values()),
+            for m in sib_msgs[k - 1][len(chunks):]: feed(k, m)
+        st0 = "spin" if spin[0] else status(0)
+        sib_status = [status(1), status(2)]
+        if alive[0]:                                       # let the task leave its loop so that its listening socket is released
+            core.running = False
+            try: g.send(([], [], []))
+            except StopIteration: pass
+            except BaseException: pass
+            finally: core.running = True
+        if spin[0]: self.spins += 1
+        return {"delivered": delivered, "counts": counts, "buf": bytes(cons[0].buf).hex() if st0 == "alive" else None, "status": st0,
+                "sib_status": sib_status, "sib_delivered": sib_del, "loop_alive": alive[0] or spin[0], "table": list(table.values()),
                 "splice": self._splice(objs), "chunks": [c.hex() for c in chunks], "replies": len(socks[0].sent)}
 
     def _impl_sw(self, case):
